@@ -24,7 +24,7 @@ REPO = os.environ.get("VERIF_REPO", "/repo")
 PY = os.environ.get("VERIF_PY", "/venv/bin/python")
 COQ = os.path.join(VERIF, "coq")
 GUARD = "CTI_PYTHON_STIX2_VERIF"
-NCPU = min(16, os.cpu_count() or 4)
+NCPU = int(os.environ.get("VERIF_JOBS", min(16, os.cpu_count() or 4)))
 
 sys.path.insert(0, os.path.join(VERIF, "translators"))
 
@@ -155,6 +155,8 @@ def ensure_gen_placeholders():
 
 
 def ensure_makefile():
+    import gen_coqproject
+    gen_coqproject.main()
     mk = os.path.join(COQ, "Makefile")
     cp = os.path.join(COQ, "_CoqProject")
     if not os.path.exists(mk) or os.path.getmtime(mk) < os.path.getmtime(cp):
@@ -301,6 +303,39 @@ def coq_ustr(s):
     return '(u "%s")' % "".join(out)
 
 
+def coq_jvalue(x):
+    """A JSON-like Python value as a term of Base.Json.jvalue (dict order kept;
+    floats by repr text; tuples as arrays)."""
+    if x is None:
+        return "JNull"
+    if x is True or x is False:
+        return "(JBool %s)" % coq_bool(x)
+    if isinstance(x, int):
+        return "(JInt %s)" % coq_Z(x)
+    if isinstance(x, float):
+        return "(JFloat %s)" % coq_ustr(repr(x))
+    if isinstance(x, str):
+        return "(JStr %s)" % coq_ustr(x)
+    if isinstance(x, (list, tuple)):
+        return "(JArr %s)" % coq_list([coq_jvalue(e) for e in x])
+    if isinstance(x, dict):
+        return "(JObj %s)" % coq_list(["(%s, %s)" % (coq_ustr(k), coq_jvalue(v)) for k, v in x.items()])
+    raise TypeError("coq_jvalue: %r" % type(x))
+
+
+def ustr_unescape(s):
+    """Inverse of Base.UString.show_ustr on a result line fragment."""
+    out, i = [], 0
+    while i < len(s):
+        if s[i] == "\\":
+            out.append(chr(int(s[i + 1:i + 7], 16)))
+            i += 7
+        else:
+            out.append(s[i])
+            i += 1
+    return "".join(out)
+
+
 # --------------------------------------------------------------------------
 # evaluating the model inside Coq
 
@@ -410,10 +445,16 @@ def run_impl(worker, cases, procs=None, timeout=1800, args=()):
 # findings, replays, evidence
 
 def load_known():
-    try:
-        return json.load(open(os.path.join(VERIF, "known_findings.json")))
-    except OSError:
-        return []
+    """known_findings.json plus per-property files known_findings.d/*.json
+    (same entry format; the split only avoids edit conflicts)."""
+    out = []
+    paths = [os.path.join(VERIF, "known_findings.json")] + sorted(glob.glob(os.path.join(VERIF, "known_findings.d", "*.json")))
+    for p in paths:
+        try:
+            out += json.load(open(p))
+        except OSError:
+            pass
+    return out
 
 
 class Violation:
